@@ -553,6 +553,7 @@ static Plan gen_plan(uint64_t runseed) {
       for (auto& o : sel) {
         o.id = p.next_id++;
         ops.push_back(o);
+        if (rp.chance(1, 10)) { o.id = p.next_id++; ops.push_back(o); }   // echo (see gen_history)
         if (rp.chance(1, 25)) { Op x; x.id = p.next_id++; x.kind = OK_INIT; ops.push_back(x); }
         if (rp.chance(1, 40)) { Op x; x.id = p.next_id++; x.kind = OK_DEPRECATED; x.fn = "GetExitStatus"; ops.push_back(x); }
       }
@@ -567,7 +568,10 @@ static Plan gen_plan(uint64_t runseed) {
       gen_history(rp, cfg, hist, p.next_id);
       for (auto& o : hist) {
         ops.push_back(o);
-        if (rp.chance(1, 3)) { Op q = g_catalogue[rp.below(g_catalogue.size())]; q.id = p.next_id++; ops.push_back(q); }
+        if (rp.chance(1, 3)) {
+          Op q = g_catalogue[rp.below(g_catalogue.size())]; q.id = p.next_id++; ops.push_back(q);
+          if (rp.chance(1, 6)) { q.id = p.next_id++; ops.push_back(q); }   // echo (see gen_history)
+        }
       }
       int tail = rp.range(5, 25);
       for (int i = 0; i < tail; i++) { Op q = g_catalogue[rp.below(g_catalogue.size())]; q.id = p.next_id++; ops.push_back(q); }
